@@ -137,6 +137,20 @@ def python_side_env():
         yield
 
 
+def refresh_flags(it, pyobj):
+    """re-read the notification flags of a bridged object (after natively running code may have changed them)"""
+    ent = it.__dict__.get("_ht_cache", {}).get(id(pyobj))
+    if ent is None:
+        return
+    s = ent[1]
+    flags = s.flags & ~(HASTRAITS_NO_NOTIFY | HASTRAITS_VETO_NOTIFY)
+    if not pyobj._trait_notifications_enabled():
+        flags |= HASTRAITS_NO_NOTIFY
+    if pyobj._trait_notifications_vetoed():
+        flags |= HASTRAITS_VETO_NOTIFY
+    s.flags = flags
+
+
 # ---- bridging real CTrait objects into abstract trait records ---------------------------------------
 def static_table(it, name):
     return it.global_value(name).items
